@@ -484,6 +484,10 @@ Definition run_in_handler (cfg : config) (s : sstate) (h : in_handler) (data : b
               | None =>
                   if negb (c_approve cfg ns) then
                     let '(s2, o) := session_send cfg s1 (mk_reject reject_other 0%Z seq) in (s2, o, true)
+                  else if Z.leb hb 0 then
+                    (* Session.start fails: a timer needs a positive duration (reachable only with
+                       heartbeat limits that admit a non-positive interval) *)
+                    let '(s2, o) := session_send cfg s1 (mk_reject reject_incorrect_value tagnum_HeartBtInt seq) in (s2, o, true)
                   else
                     let s2 := start_timers s1 in
                     let b := set_kv tag_EncryptMethod (VString true enc) tpl_Logon in
